@@ -1,5 +1,6 @@
 import OnetVerif.Model.Util
 import OnetVerif.Model.C01Send
+import OnetVerif.Model.C01Inst
 /-! Model for property C01: the receiving side of one server for one tree id — arrival of
 protocol messages, parking while the tree is unknown, the tree request, the tree store entry
 and the flushes of the parked messages.  One thread step per region between two hook points of
@@ -106,6 +107,7 @@ namespace Drv
 
 structure State where
   trees : List (Nat × St) := []
+  inst : Inst.St := {}
 
 def init : State := {}
 def get (s : State) (t : Nat) : St := (s.trees.lookup t).getD {}
@@ -120,6 +122,14 @@ def showTs : TS → String
 
 def obs (x : St) : String :=
   s!"tree={showTs x.tree} parked={x.parked.length} delivered={Util.showNatList x.delivered}"
+
+def iobs (x : Inst.St) (i : Nat) : String :=
+  let pc := match x.thr[i]? with
+    | some th => (match th.pc with | .wait => "blocked" | .ctor => "ctor" | .fin => "fin")
+    | none => "?"
+  let sorted := (x.handed.toArray.qsort (fun a b => a.1 < b.1 || (a.1 == b.1 && a.2 < b.2))).toList
+  let hs := sorted.map fun (t, m) => s!"{t}:{m}"
+  s!"pc={pc} created={Util.showNatList x.created} handed={if hs.isEmpty then "-" else ",".intercalate hs}"
 
 /-- run every thread that sits at `lookup` once (the flush goroutine re-enters `TransmitMsg` for
 each drained message right away) -/
@@ -177,6 +187,38 @@ def step (s : State) (toks : List String) : State × String :=
     | some t =>
       match C01.step (get s t) .flush with
       | some x => let x := drain x; (set s t x, obs x)
+      | none => (s, "disabled")
+    | none => (s, "bad-op")
+  -- the transmitMux region: `iarrive <tok> <m>` (the thread runs until it is handed over, blocked on the
+  -- lock, or inside the constructor), `ictor <tok>` (the constructor of that token returns), then every
+  -- thread that was blocked on the lock gets its turn in arrival order
+  | ["iarrive", tok, m] =>
+    match tok.toNat?, m.toNat? with
+    | some tok, some m =>
+      let x := s.inst
+      match Inst.step x (.arrive tok m) with
+      | some x1 =>
+        let i := x1.thr.length - 1
+        let x2 := (Inst.step x1 (.thread i)).getD x1
+        ({ s with inst := x2 }, iobs x2 i)
+      | none => (s, "disabled")
+    | _, _ => (s, "bad-op")
+  | ["ictor", tok] =>
+    match tok.toNat? with
+    | some tok =>
+      let x := s.inst
+      match (List.range x.thr.length).find? (fun i => match x.thr[i]? with
+              | some th => th.tok == tok && th.pc == .ctor | none => false) with
+      | some i =>
+        match Inst.step x (.thread i) with
+        | some x1 =>
+          -- the waiting threads take the lock one after the other, in arrival order
+          let x2 := (List.range x1.thr.length).foldl (fun acc j =>
+            match acc.thr[j]? with
+            | some th => if th.pc == .wait then (Inst.step acc (.thread j)).getD acc else acc
+            | none => acc) x1
+          ({ s with inst := x2 }, iobs x2 i)
+        | none => (s, "disabled")
       | none => (s, "disabled")
     | none => (s, "bad-op")
   -- sending side: `send <parents: -,0,0,1,…> <me> <to:j|children|parent|bcast|multi:j,k>` answers the
